@@ -44,6 +44,10 @@ def pattern_event(pp, tid, c, opts):
     ev = {"tid": tid, "k": "pattern", "comp": [[k, e4(v)] for k, v in c.items()], "opts": {k: str(v) for k, v in opts.items()},
           "requested": fix(opts.get("distribution_abundance", 1.0)), "isSum": bool(opts.get("is_abundance_sum", False)),
           "pruned": bool(pruned), "massView": bool(mass_view and r >= 3),
+          # neutron-offset view reported as masses: lightest peak = offset 0 = the monoisotopic mass (integer counts;
+          # for fractional counts the reported value is pinned by a doctest, see C14_FractionalMean)
+          "ncMassView": bool(opts.get("use_neutron_count") and opts.get("output_masses_for_neutron_offset")
+                             and all(float(v).is_integer() for v in c.values())),
           "lightestFirst": all(k in LIGHT + ["e", "p", "n", "13C", "2H", "D", "15N", "18O"] for k in c), "unlabelled": True,
           "resolutionSlack": int(10 ** (6 - r)) * max(1, len(c)) if r >= 3 else 0, "out": o,
           "pattern": pattern(p) if o == "ret" else []}
@@ -94,6 +98,27 @@ def run(tier, seed, rep):
         else:
             ev.update(mass=[], m0=[0, 0], offsets=[])
         evs.append(ev)
+    # completeness under a threshold: the thresholded pattern is the full pattern minus the peaks whose abundance
+    # relative to the largest peak is below the threshold (large molecules: the base peak is far below 100 %)
+    for i in range(1500 if thorough else 150):
+        c = {"C": rnd.randint(20, 200), "H": rnd.randint(30, 300), "N": rnd.randint(0, 50), "O": rnd.randint(0, 60),
+             "S": rnd.randint(0, 4)}
+        t = rnd.choice([1e-6, 1e-3, 1e-3, 0.01])
+        res_ = rnd.choice([1, 2, 3])
+        use_nc = rnd.random() < 0.3
+
+        def f():
+            full = pp.isotopic_distribution(dict(c), distribution_resolution=res_, use_neutron_count=use_nc)
+            thr = pp.isotopic_distribution(dict(c), min_abundance_threshold=t, distribution_resolution=res_,
+                                           use_neutron_count=use_nc)
+            return full, thr
+        o, r_ = call(f)
+        if o == "ret" and len(r_[0]) > 500:
+            continue
+        a8 = lambda a: int(round(a * 1e8))
+        evs.append({"tid": f"t{i}", "k": "threshold", "comp": [[k, e4(v)] for k, v in c.items()], "t8": a8(t), "out": o,
+                    "full": [{"m": fix(m), "a8": a8(a)} for m, a in r_[0]] if o == "ret" else [],
+                    "thr": [{"m": fix(m), "a8": a8(a)} for m, a in r_[1]] if o == "ret" else []})
     # exact multinomial expansion for compositions of at most 12 atoms (the isotopologues are enumerated by TLC)
     for i in range(2500 if thorough else 90):
         total = rnd.randint(1, 12)
